@@ -1,10 +1,38 @@
-(* Properties_C11.v — obligations of property C11.  Contains only theorem statements closed by
-   `exact <lemma>` and Print Assumptions. *)
-Require Import ObsRun.
+(* Properties_C11.v — obligations of property C11 (ECC and country follow group 1A variant 0 and
+   the IEC 62106-4 table). *)
+Require Import ObsRun Lemmas_Ecc Lemmas_Tables.
 Local Open Scope Z_scope.
 
-(* non-vacuity: the observer of C11 is evaluated (and holds) along a run of the model that
-   touches every group kind *)
+(* The table measured on the compiled library (complete graph over 16 PI nibbles x 256 ECC values;
+   the dumper also checks "PI unknown gives 0" and "the low 12 bits of PI are irrelevant" over all
+   65537 x 256 arguments) equals the reference IEC 62106-4 table, is 'unknown' for nibble 0 and
+   outside A0-A6 / D0-D4 / E0-E5 / F0-F4, and contains only valid enumerators. *)
+Theorem C11_table_is_IEC_and_shaped : ecc_ok = true.
+Proof. exact ecc_table_is_reference. Qed.
+Print Assumptions C11_table_is_IEC_and_shaped.
+
+(* For every reachable state and every call (normal mode): a 1A group with error-free B and C
+   and variant 0 — (B/4096 = 1, (B/2048) mod 2 = 0, (C/4096) mod 8 = 0; the linkage bit 15 of C is
+   irrelevant) — sets ECC to C mod 256 and the country to the table entry for (country nibble of
+   the PI the getter shows after this very call, ECC), 0 when that PI is unknown; every other
+   call leaves both as they were (clear / init reset them); the country getter always returns a
+   valid enumerator (both modes). *)
+Theorem C11_observer : forall h s o, reach conv_u lut_g h s -> wf_op o ->
+  obs_C11 lut_g (o :: h) (snap_of s) (snap_of (fst (step_u s o))) (snd (step_u s o)) (ret_of o) = true.
+Proof. exact (C11_observer_holds conv_u lut_g lut_g_range). Qed.
+Print Assumptions C11_observer.
+
+Theorem C11_country_always_valid : forall h s, reach conv_u lut_g h s ->
+  0 <= d_country (used s) < 221.
+Proof.
+  intros h s Hr. pose proof (reach_bproj conv_u lut_g h s Hr) as Hb.
+  pose proof (b_hist_ranges lut_g lut_g_range h (reach_wf_hist _ _ _ _ Hr)) as [_ [_ [Hc _]]].
+  replace (used s) with (b_used (b_hist lut_g h)) by (rewrite <- Hb; reflexivity). exact Hc.
+Qed.
+Print Assumptions C11_country_always_valid.
+
 Example C11_scenario : check_run_u (observer_u 11) scenario = true.
 Proof. vm_compute. reflexivity. Qed.
-Print Assumptions C11_scenario.
+Example C11_nontrivial :
+  let s := run_u (firstn 16 scenario) in sn_ecc (snap_of s) = 226 /\ sn_country (snap_of s) = 107.
+Proof. vm_compute. split; reflexivity. Qed.
